@@ -65,8 +65,27 @@ pub fn program(r: &mut Rng, with_real: bool) -> (Model, String) {
     let cfg = ModelCfg { max_vars: 3, depth: if r.chance(1, 2) { 2 } else { 3 }, logic: true, piecewise: true, unbounded: false, fractional: false, strict_cmp: false, hostile: false };
     let nv = 1 + r.below(3);
     let ds = discrete_decls(r, nv, with_real);
-    let (m, _) = gen_model::model_with(r, &cfg, ds);
-    let sp = Spelling { aliases: r.chance(1, 2), implicit_mul: r.chance(1, 2), redundant_parens: r.chance(1, 2), named_consts: r.chance(1, 3) };
+    let (mut m, ds) = gen_model::model_with(r, &cfg, ds);
+    // one program in four also asserts a CHAIN of one connective over the Boolean variables, nested to the right or to the
+    // left (the printer leaves out the parentheses the documented associativity makes redundant)
+    let bools: Vec<String> = ds.iter().filter(|d| matches!(d.ty, VariableType::Boolean)).map(|d| d.name.clone()).collect();
+    if !bools.is_empty() && r.chance(1, 4) {
+        use rooc::model_transformer::{Constraint, Exp};
+        let v = |r: &mut Rng| Exp::Variable(r.pick(&bools).clone());
+        let mk = |k: usize, a: Exp, b: Exp| match k { 0 => Exp::Implies(Box::new(a), Box::new(b)), 1 => Exp::Iff(Box::new(a), Box::new(b)), 2 => Exp::Xor(Box::new(a), Box::new(b)),
+            3 => Exp::BinOp(rooc::BinOp::Or, Box::new(a), Box::new(b)), _ => Exp::BinOp(rooc::BinOp::And, Box::new(a), Box::new(b)) };
+        let k = r.below(5);
+        let n = 2 + r.below(2);
+        let mut e = v(r);
+        let right = r.chance(1, 2);
+        for _ in 0..n { let x = if r.chance(1, 4) { Exp::Not(Box::new(v(r))) } else { v(r) }; e = if right { mk(k, x, e) } else { mk(k, e, x) }; }
+        // a second connective around it now and then (precedence between the connectives)
+        if r.chance(1, 3) { let k2 = r.below(5); let x = v(r); e = if r.chance(1, 2) { mk(k2, x, e) } else { mk(k2, e, x) }; }
+        let mut cons = m.constraints().clone();
+        cons.push(Constraint::new_logic_assertion(e, "chain".into()));
+        m = gen_model::build(m.objective().objective_type.clone(), m.objective().rhs.clone(), cons, &ds);
+    }
+    let sp = Spelling { aliases: r.chance(1, 2), implicit_mul: r.chance(1, 2), redundant_parens: r.chance(1, 2), named_consts: r.chance(1, 3), minimal_parens: r.chance(1, 2) };
     let mut pr = r.fork();
     let mut p = Printer { r: &mut pr, sp, consts: vec![] };
     let text = p.program(&m);
@@ -125,7 +144,7 @@ pub fn mixed_program(r: &mut Rng) -> (Model, String) {
     let opt = match r.below(5) { 0 | 1 => OptimizationType::Min, 2 | 3 => OptimizationType::Max, _ => OptimizationType::Satisfy };
     let obj = if matches!(opt, OptimizationType::Satisfy) { Exp::Number(0.0) } else { side(r) };
     let m = gen_model::build(opt, obj, cons, &ds);
-    let sp = Spelling { aliases: r.chance(1, 2), implicit_mul: r.chance(1, 2), redundant_parens: r.chance(1, 2), named_consts: r.chance(1, 3) };
+    let sp = Spelling { aliases: r.chance(1, 2), implicit_mul: r.chance(1, 2), redundant_parens: r.chance(1, 2), named_consts: r.chance(1, 3), minimal_parens: r.chance(1, 2) };
     let mut pr = r.fork();
     let text = Printer { r: &mut pr, sp, consts: vec![] }.program(&m);
     (m, text)
